@@ -621,7 +621,7 @@ class AProc(ScriptedMixin, Process):
         kind = op[0]
         seen = {'agents': sorted(states['agents'].keys()), 'pool': sorted(states['pool'].keys())}
         # keep the population bounded: a crowded store is thinned instead
-        if kind in ('add', 'gen', 'div', 'add_del') and \
+        if kind in ('add', 'gen', 'gen_empty', 'div', 'add_del') and \
                 len(seen['agents']) + len(seen['pool']) >= s.get('maxcells', 7):
             # (only the first actor deletes: two actors never issue
             # conflicting operations on one cell in the same batch)
@@ -660,6 +660,11 @@ class AProc(ScriptedMixin, Process):
             up['agents'] = {'_generate': [{
                 'key': self._fresh(k), 'processes': procs, 'steps': steps, 'flow': flow,
                 'topology': topo, 'initial_state': {'vars': decode_value(copy.deepcopy(op[2]))}}]}
+        elif kind == 'gen_empty':
+            # a compartment of state only, through `_generate` (no processes, no wiring)
+            up['agents'] = {'_generate': [{
+                'key': self._fresh(k), 'processes': {}, 'topology': {},
+                'initial_state': {'vars': decode_value(copy.deepcopy(op[1]))}}]}
         elif kind == 'div':
             c = pick('agents', op[1])
             if c is not None:
